@@ -132,3 +132,23 @@ package autonatv2
 //@ ensures called(ClosePeer, 0) && arg(ClosePeer, 0, 1) == p && called(ClearAddrs, 0) && arg(ClearAddrs, 0, 1) == p &&
 //@         called(RemovePeer, 0) && arg(RemovePeer, 0, 1) == p
 //@ noframe
+
+// The limits the rate limiter enforces are the configured ones (C16 "the configured global, per-peer and
+// dial-data limits"): the option stores each argument in its own setting and the server hands each setting to
+// the limiter field the clauses above are stated over.
+//@ func WithServerRateLimit
+//@ prop C16
+//@ closure 0
+//@ ensures result == nil
+//@ ensures s.serverRPM == rpm && s.serverPerPeerRPM == perPeerRPM && s.serverDialDataRPM == dialDataRPM
+//@ ensures s.maxConcurrentRequestsPerPeer == maxConcurrentRequestsPerPeer
+//@ modifies s.serverRPM, s.serverPerPeerRPM, s.serverDialDataRPM, s.maxConcurrentRequestsPerPeer
+
+//@ func newServer
+//@ prop C16
+//@ ensures result != nil && result.limiter != nil
+//@ ensures result.limiter.RPM == s.serverRPM && result.limiter.PerPeerRPM == s.serverPerPeerRPM
+//@ ensures result.limiter.DialDataRPM == s.serverDialDataRPM
+//@ ensures result.limiter.MaxConcurrentRequestsPerPeer == s.maxConcurrentRequestsPerPeer
+//@ ensures result.limiter.now == s.now
+//@ modifies nothing
